@@ -127,6 +127,12 @@ func runA(c Case) *h.Result {
 	if c.hasFormDefault() {
 		res.Classes = append(res.Classes, "A:default-form")
 	}
+	for _, a := range c.Args {
+		if a == "nil" || a == "()" {
+			res.Classes = append(res.Classes, "A:explicit-nil-argument")
+			break
+		}
+	}
 	res.NonTrivial = c.sections() >= 2 && (v.usedDefault || v.keyOutOfOrder || v.reject != "")
 	if tag := excludedA(c, v); tag != "" {
 		res.Skip = tag
